@@ -332,6 +332,29 @@ fn append_after_tear_case(full: &[u8], t: usize, c: u8) {
   std::mem::forget(after);
 }
 
+fn append_after_torn_first_record(full: &[u8], t: usize, c: u8) {
+  // the log was empty (fresh index, or just after a commit/rollback) and the crash tore its FIRST record
+  let img = Arc::new(MemStorage::new(full[..t].to_vec()));
+  let p = PathBuf::new();
+  let before = replay_of(img.as_ref());
+  assert!(before.is_empty(), "C02: a torn first record must not be recovered");
+  std::mem::forget(before);
+  let mut wal = ok(Wal::open(img.clone(), &p)).unwrap();
+  assert!(ok(wal.append_delete_doc_id(&id1(c))).is_some());
+  assert!(ok(wal.sync()).is_some());
+  std::mem::forget(wal);
+  let after = replay_of(img.as_ref());
+  assert!(
+    after.len() == 1 && is_delete(&after[0], c),
+    "C02: operation appended after a torn first record and synced is not recovered"
+  );
+  std::mem::forget(after);
+}
+
+macro_rules! each_first_tear {
+  ($full:expr, $c:expr; $($t:expr),*) => { $( append_after_torn_first_record($full, $t, $c); )* };
+}
+
 macro_rules! each_tear {
   ($full:expr, $c:expr; $($t:expr),*) => { $( append_after_tear_case($full, $t, $c); )* };
 }
@@ -355,6 +378,28 @@ fn c02_wal_append_after_torn_tail() {
   let st = build_dcd(b'a', b'b');
   let full = st.bytes().clone();
   each_tear!(&full, c; 1, 2, 3, 4, 5);
+  kani::cover!(c != b'a', "distinct ids");
+}
+
+//@ props: C02
+//@ tier: quick
+//@ funcs: index::wal::Wal::open (append mode, incl. whatever it does to the existing tail), Wal::append_delete_doc_id, Wal::sync, Wal::replay
+//@ symbolic: the id c of the operation queued after the restart; the first crash tore the FIRST record of an empty log at every offset t in 1..6; a restarted writer opens the log, appends `delete(c)` and syncs; second crash
+//@ bounds: 2 crashes, every tear offset inside the first record of the log
+//@ oracle: after the second restart the recovered operations are exactly [delete c]
+//@ assumes: as c02_wal_roundtrip_dcd
+#[kani::proof]
+#[kani::unwind(8)]
+#[kani::stub(std::backtrace::Backtrace::capture, stub_backtrace)]
+#[kani::stub(alloc::fmt::format, stub_format)]
+#[kani::stub(crc32fast::Hasher::internal_new_specialized, stub_crc_specialized)]
+#[kani::stub(serde_json::from_slice, stub_from_slice)]
+#[kani::stub(core::str::from_utf8, stub_from_utf8)]
+fn c02_wal_append_after_torn_first_record() {
+  let c = any_ascii();
+  let st = build_dcd(b'a', b'b');
+  let full = st.bytes().clone();
+  each_first_tear!(&full, c; 1, 2, 3, 4, 5, 6);
   kani::cover!(c != b'a', "distinct ids");
 }
 
@@ -405,7 +450,7 @@ fn c02_wal_truncate_semantics() {
 }
 
 //@ props: C02
-//@ tier: quick
+//@ tier: thorough
 //@ funcs: index::wal::Wal::last_pending_ops, Wal::replay
 //@ symbolic: nothing (concrete logs): this harness ties the real `last_pending_ops` to the specification `pending_from` used by the symbolic harnesses
 //@ bounds: the logs D C D, D D C, C D D and D D (ids "a", "b")
